@@ -263,7 +263,7 @@ def write_generic(k: K.Kit, physical: int, stmts: list[tuple], opts: Obj, *, via
         half = (len(objs) + 1) // 2
         sinks = [k.g_sink(objs[:half], namespaces), k.g_sink(objs[half:], namespaces)]
         frames = it.drain(k.call(k.get(K.GS, "grouped_stream_to_frames"), k.generator(sinks), opts))
-        streams = [e["obj"] for e in it.events if e["kind"] == "setattr" and e["attr"] == "flow" and isinstance(e.get("obj"), Obj)]
+        streams = [e["obj"] for e in it.events if e["kind"] == "setattr" and e["attr"] == "flow" and isinstance(e.get("obj"), Obj) and isinstance(e.get("value"), Obj)]
         return frames, (streams[-1] if streams else stream)
     if via == "sink":
         data: Any = k.g_sink(objs, namespaces)
@@ -298,7 +298,7 @@ def write_rdflib(k: K.Kit, physical: int, stmts: list[tuple], opts: Obj, *, via:
         half = (len(stmts) + 1) // 2
         stores = [rdflib_store_for(k, physical, stmts[:half], namespaces), rdflib_store_for(k, physical, stmts[half:], namespaces)]
         frames = it.drain(k.call(k.get(K.RS, "grouped_stream_to_frames"), k.generator(stores), opts))
-        streams = [e["obj"] for e in it.events if e["kind"] == "setattr" and e["attr"] == "flow" and isinstance(e.get("obj"), Obj)]
+        streams = [e["obj"] for e in it.events if e["kind"] == "setattr" and e["attr"] == "flow" and isinstance(e.get("obj"), Obj) and isinstance(e.get("value"), Obj)]
         return frames, (streams[-1] if streams else stream)
     if via == "store":
         data: Any = rdflib_store_for(k, physical, stmts, namespaces)
